@@ -62,6 +62,15 @@ def _xv_value(kind, enc, version=0):
         import numpy as np
         return np.array([int(num) % 1000 + 1, int(num) % 7 + 1, 3],
                         dtype=np.int64)
+    if kind == "mat23":
+        # a non-square matrix among several outputs
+        import numpy as np
+        return (np.array([[num, num + 1.0, num + 2.0],
+                          [num + 3.0, num + 4.0, num + 5.0]]), num + 0.5)
+    if kind == "cube213":
+        # a single non-cubic three-dimensional output
+        import numpy as np
+        return (num + np.arange(6.0)).reshape(2, 1, 3)
     if kind == "array2":
         import numpy as np
         return np.array([[num, num + 1.0], [num + 2.0, num + 3.0]])
